@@ -378,7 +378,10 @@ func sameLvalue(f *ir.Func, a, b ast.Expr) bool {
 		}
 		xi, ok1 := f.ConstInt(x.Index)
 		yi, ok2 := f.ConstInt(y.Index)
-		return ok1 && ok2 && xi == yi
+		if ok1 && ok2 {
+			return xi == yi
+		}
+		return !ok1 && !ok2 && sameLvalue(f, x.Index, y.Index)
 	}
 	return false
 }
